@@ -62,6 +62,7 @@ type State struct {
 	escaped   map[string]bool     // allocated objects that other code may reach
 	freshSl   map[string]bool     // slice values whose backing store this unit allocated
 	errs      []errResult         // error-typed results of calls made on this path (property C12)
+	errsAtLoop map[*ssa.BasicBlock]int // len(errs) when the path entered the loop with this header
 	elemFacts []elemFact // assumed facts about every element of a slice returned by a library call
 }
 
@@ -157,6 +158,12 @@ func (s *State) clone() *State {
 	n.elemFacts = append([]elemFact{}, s.elemFacts...)
 	n.allocTypes = append([]allocType{}, s.allocTypes...)
 	n.errs = append([]errResult{}, s.errs...)
+	if s.errsAtLoop != nil {
+		n.errsAtLoop = map[*ssa.BasicBlock]int{}
+		for k, v := range s.errsAtLoop {
+			n.errsAtLoop[k] = v
+		}
+	}
 	return n
 }
 
@@ -235,6 +242,7 @@ type Unit struct {
 	resultNames map[string]Term
 	usedBounded map[string]string // bounded-only clauses relied upon -> adapter
 	unbound     []unboundClause // clauses that could not be evaluated (see unboundClause)
+	lostGhosts  map[string]string // clause label -> reason (see lostGhost)
 	usedEnsures map[string]bool   // in-module callee ensures relied upon (obligation names)
 }
 
